@@ -14,7 +14,7 @@ import os
 import re
 import shutil
 
-from lib.vlib import COQ, WORK, Check, check_props, coq_eval_many, coq_make, parse_props, vh
+from lib.vlib import COQ, REPO, WORK, Check, check_props, coq_eval_many, coq_make, parse_props, vh
 
 PID = 'C18'
 GEN = os.path.join(COQ, 'generated')
@@ -33,7 +33,7 @@ def generate():
     # VERIF_C18_STD: test hook, translate a copy of the std directory (used to check that a changed library
     # makes this check fail) instead of /repo/std
     alt = os.environ.get('VERIF_C18_STD')
-    rc, out = vh(['std-dump', tmp] + ([alt] if alt else []))
+    rc, out = vh(['std-dump', tmp, alt or os.path.join(REPO, 'std')])
     changed = []
     if rc == 0:
         for fn in sorted(os.listdir(tmp)):
